@@ -202,8 +202,12 @@ def gen_qrproto(g):
     f = 'qremote/conn_mx.c'
     b = _body(g, f, 'connect_mx')
     mm = re.findall(r'default:\s*/\*.*?\*/\s*daneinfo_free\(d, tlsa\);\s*(?:write_status\(' + LIT + r'\);\s*)?net_conn_shutdown\(shutdown_abort\);', b, re.S)
-    if len(mm) != 1:
+    # alternative shape of that branch: any other error on the first greeting line moves on to the next MX, too
+    other_next = re.search(r'default:\s*/\*.*?\*/\s*if \(socketd >= 0\)\s*drop_connection\(\);\s*continue;\s*\}', b, re.S)
+    if len(mm) != 1 and not other_next:
         g.broken.append('%s:connect_mx: greeting error default branch not found' % f)
+    n('greetOtherNextMx', 1 if other_next and not mm else 0,
+      'connect_mx: 1 iff an unexpected error while waiting for the greeting moves on to the next MX (no exit in that branch)')
     s('stGreetFail', mm[0] if mm and mm[0] else '', 'connect_mx: status before giving up on an unexpected greeting error (empty: none written)')
     n('greetTimeoutNextMx', 1 if re.search(r'case ETIMEDOUT:\s*(?:/\*.*?\*/\s*)?quitmsg_if_net\(s\);\s*continue;', b, re.S) else 0,
       'connect_mx: 1 iff a time-out while waiting for the greeting moves on to the next MX (quitmsg_if_net(s); continue)')
